@@ -92,6 +92,9 @@ class SymMixin:
         if out is not None:
             kw['out'] = tuple(_base(o) for o in out)
         r = getattr(ufunc, method)(*[_base(x) for x in inputs], **kw)
+        if out is not None:
+            # in-place forms (`a += b`, `np.add(a, b, out=a)`) return the very object passed as `out`, as NumPy does: code may test identity
+            return out[0] if len(out) == 1 else out
         if isinstance(r, _np.ndarray) and not isinstance(r, SymMixin):
             if r.dtype == object:
                 r = r.view(type(self) if isinstance(self, SymArray) else SymArray)
@@ -229,7 +232,23 @@ class SymCSR:
     def __init__(s, arg, shape=None):
         s.shape = tuple(int(x) for x in shape)
         s.d = {}
+        s.data_ref = None
         if arg is not None:
+            if len(arg) == 3:
+                # csr_array((data, indices, indptr)): scipy's default copy=False keeps the caller's `data` array as the matrix storage;
+                # the reference is kept so that aliasing checks (C15) can see it.  Expanded to (row, col) pairs for the dict form.
+                data, indices, indptr = arg
+                if isinstance(data, _np.ndarray):
+                    s.data_ref = data
+                indices = _np.asarray(indices); indptr = _np.asarray(indptr)
+                if indptr.size != s.shape[0] + 1:
+                    raise ValueError('index pointer size %d should be %d' % (indptr.size, s.shape[0] + 1))
+                if int(indptr[0]) != 0 or _np.any(_np.diff(indptr.astype(int)) < 0) or int(indptr[-1]) > indices.size:
+                    raise ValueError('index pointer array is not consistent with the indices')
+                ii = _np.repeat(_np.arange(s.shape[0]), _np.diff(indptr.astype(int)))
+                jj = indices.ravel()[:int(indptr[-1])]
+                data = _base(_np.asarray(data)).ravel()[:int(indptr[-1])]
+                arg = (data, (ii, jj))
             data, (ii, jj) = arg
             data = _base(_np.asarray(data))
             ii = _np.asarray(ii)
